@@ -113,11 +113,56 @@ def _sweeps(out, op, name, k, lo, hi, total, parts, rng):
         n += cnt
     return n
 
+def prepare(runner, work):
+    """tables for the message-level stream (2 09 0YY elements in datasets)"""
+    from vlib import tables
+    from props import c01
+    c01.P.clear()
+    c01.P.update(tables.setup_tables(runner, {"cur": tables.shipped("cur") + ("-", "-")}))
+
+MSG64 = [0x0000000000000000, 0x3ff0000000000000, 0xbff8000000000000, 0x0000000000000001, 0x000fffffffffffff,
+         0x0010000000000000, 0x7fefffffffffffff, 0xffefffffffffffff, 0x7ff0000000000000, 0xfff0000000000000,
+         0x47efffffe0000000, 0x3ff0000000000001, 0x4059000000000000]
+MSG32 = [0x00000000, 0x3f800000, 0xbfc00000, 0x00000001, 0x007fffff, 0x00800000, 0x7f7fffff, 0xff7fffff,
+         0x7f800000, 0xff800000, 0x3f800001, 0x42c80000]
+
+def msg_scenarios(rng, tier):
+    """2 09 032 / 2 09 064 elements inside datasets, alone and with 2 01 / 2 07 / 2 02 also in force, compressed
+    and not: the value set is the value decoded, bit for bit"""
+    out = []
+    n = 60 if tier == "quick" else 800
+    for i in range(n):
+        k = rng.choice([32, 64])
+        el = rng.choice([12101, 10004, 7002, 11002])
+        pre, post = rng.choice([([], []), ([], []), ([201130], [201000]), ([207002], [207000]), ([202129], [202000])])
+        if rng.random() < 0.5:
+            t = pre + [209000 + k, el, 209000] + post
+            ix = len(pre) + 1
+        else:
+            t = [209000 + k] + pre + [el] + post + [209000]
+            ix = 1 + len(pre)
+        nsub = rng.choice([1, 2, 3])
+        comp = rng.choice([0, 1])
+        ls = ["T.use cur", "tm.new 5 " + " ".join("%06d" % d for d in t)]
+        pool = MSG64 if k == 64 else MSG32
+        for s_ in range(nsub):
+            v = rng.choice(pool) if rng.random() < 0.8 else rng.getrandbits(k)
+            if (v >> (k - 1)) and not (v & ((1 << (k - 1)) - 1)):
+                v = 0        # -0.0: the model's exact rationals identify it with +0.0 (witness in corpus/C19-compressed-signed-zero.c)
+            ls += ["ss.new", "ss.set%s %d %d %0*x" % ("d" if k == 64 else "f", s_, ix, k // 4, v)]
+        for s_ in range(nsub):
+            ls += ["ss.list %d" % s_, "ss.vals %d" % s_]
+        ls += ["ds.encode %d" % comp, "ds.decodelast 1 0 0"]
+        for s_ in range(nsub):
+            ls += ["dd.vals %d" % s_]
+        out.append(Scenario("msg-%d" % i, ls, {"msg": True, "k": k, "ix": ix, "nsub": nsub}))
+    return out
+
 def scenarios(rng, tier, runner):
     thorough = tier != "quick"
     excl = _known_excludes()
     lowsub = "subnormal-low" not in excl
-    out = [Scenario("libm", ["ieee.libm"])]
+    out = [Scenario("libm", ["ieee.libm"])] + msg_scenarios(rng, tier)
     _counts["patterns_through_model"] = _counts["patterns_impl_only"] = 0
     _counts["excluded_as_known_findings"] = sorted(excl)
     # 1. named boundary patterns, portable path
@@ -198,6 +243,12 @@ def scenarios(rng, tier, runner):
 # ------------------------------------------------------------------ tie
 
 def two_pass(scn, impl_out):
+    if scn.meta.get("msg"):
+        from props import c01
+        return c01.two_pass(scn, impl_out)
+    return _two_pass_ieee(scn, impl_out)
+
+def _two_pass_ieee(scn, impl_out):
     """hand the implementation's exponent guess to the model"""
     ls = []
     for i, l in enumerate(scn.lines):
@@ -231,8 +282,40 @@ def _parse_sweep(o):
         d[a] = b
     return d
 
+def _msg_oracle(scn, outs):
+    k, ix = scn.meta["k"], scn.meta["ix"]
+    sv, dv, rcs = {}, {}, {}
+    dec = None
+    for line, o in zip(scn.lines, outs):
+        t = line.split()
+        if t[0] in ("ss.setd", "ss.setf"): rcs[int(t[1])] = (o, t[3])
+        elif t[0] == "ss.vals": sv[int(t[1])] = o.split()
+        elif t[0] == "dd.vals": dv[int(t[1])] = o.split()
+        elif t[0] == "ds.decodelast": dec = o.split()
+    if dec is None or not sv:
+        return None
+    if dec[:2] != ["ok", "0"]:
+        return "a message with 2 09 0%d elements does not decode as valid: %s" % (k, " ".join(dec))
+    for s_ in sorted(sv):
+        if s_ not in dv or ix >= len(sv[s_]) or ix >= len(dv[s_]):
+            return None
+        want, got = sv[s_][ix], dv[s_][ix]
+        rc, bits = rcs.get(s_, ("?", "?"))
+        # what was set is what the dataset shows (the setter keeps every finite value, infinities and the maxima)
+        if rc == "1" and want.split(":")[-1].lower() != bits.lower() and not is_nan(int(bits, 16), k):
+            return "set %s but the dataset holds %s" % (bits, want)
+        if want != got:
+            a = int(want.split(":")[1], 16) if ":" in want else None
+            b = int(got.split(":")[1], 16) if ":" in got else None
+            if a is not None and b is not None and is_nan(a, k) and is_nan(b, k):
+                continue
+            return "2 09 0%d element of subset %d: %s encoded, %s decoded" % (k, s_, want, got)
+    return None
+
 def oracle(scn, outs):
     """bit identity, checked on the implementation's own output with Python's struct"""
+    if scn.meta.get("msg"):
+        return _msg_oracle(scn, outs)
     for line, o in zip(scn.lines, outs):
         t = line.split()
         op = t[0]
